@@ -50,6 +50,8 @@ def sq_close(scale, q2, o):
 def run_mlr(ctx, args, recs):
     inp = dkvp(recs, ifs=";", ips=":")
     st, out, err = mlr_run(ctx, IFLAGS + args, inp, timeout=30)
+    if st == "hang":            # a loaded machine is not a hang: confirm with a long timeout before calling it one
+        st, out, err = mlr_run(ctx, IFLAGS + args, inp, timeout=300)
     cls = classify_run(st, err)
     if cls != "ok":
         return cls, None, err.decode("utf-8", "replace")[-600:]
@@ -645,7 +647,7 @@ def oracle(s, recs, rows):
                         forder.append(f)
             for f in forder:
                 vals = [dict(r)[f] for r in members if f in dict(r)]
-                for a in s["accs"]:
+                for a in dict.fromkeys(s["accs"]):
                     out.append((f + "_" + a, expect_acc(a, vals, s["interp"])))
             return out
         if s.get("w"):
@@ -657,6 +659,9 @@ def oracle(s, recs, rows):
                 key = gkey(d, s["gs"])
                 hist.setdefault(key, []).append(r)
                 e = [(kk, ("text", vv)) for kk, vv in r]
+                if JOINED_KEYS[0]:          # "explained by the joined key alone?": the code writes the group's FIRST member's group-by texts into the record
+                    first = dict(hist[key][0])
+                    e = [(kk, ("text", first[kk]) if kk in s["gs"] else ev) for kk, ev in e]
                 # field order: fields ever seen in this group (not only in the window) keep their slot
                 allf = stats_fields(hist[key])
                 win = dict(stats_fields(hist[key][-s["w"]:]))
@@ -748,6 +753,11 @@ def gen_value(rng, profile):
         if r < 0.8:
             return "%s%d.%s" % (rng.choice(["", "-"]), rng.randint(0, 40), rng.choice(["5", "25", "75", "125"]))
         return str(rng.choice([2 ** 53 + 1, 2 ** 60 + 7, -(2 ** 60) - 3]) + rng.randint(0, 2))
+    if profile == "midints":        # large next to their spread, sums of squares still exact in int64: the exact-variance path (fix: var of ints)
+        base = rng.choice([100000000, 123456789, -150000000, 99999999])
+        return "" if r < 0.06 else str(base + rng.randint(0, 12))
+    if profile == "wideints":       # wide spread: n (n-1) var exceeds 2^63 already for small groups while the sums of squares fit int64
+        return "" if r < 0.06 else str(rng.randint(-1200000000, 1200000000))
     if profile == "text":
         if r < 0.35:
             return rng.choice(WORDS)
@@ -795,9 +805,13 @@ def gen_case(rng, tier):
     if rng.random() < EXT_SHARE:           # ---- extension block (Verbs3.v): shares the case budget
         return gen_case_ext(rng, tier, nrec, gvals, gs)
     if kind.startswith("stats1"):
-        profile = rng.choice(["small", "small", "ints", "text"])
-        pool = {"small": PLAIN + MOMENT, "ints": PLAIN, "text": ["count", "mode", "antimode", "distinct_count", "null_count", "minlen", "maxlen", "min", "max", "sum"]}[profile]
-        accs = rng.sample(pool, rng.randint(1, min(5, len(pool))))
+        profile = rng.choice(["small", "small", "small", "ints", "text", "text", "midints", "wideints"])
+        BIGVAR = ["var", "stddev", "meaneb", "mean", "sum", "count", "min", "max", "var", "stddev"]
+        pool = {"small": PLAIN + MOMENT, "ints": PLAIN, "midints": BIGVAR, "wideints": BIGVAR,
+                "text": ["count", "mode", "antimode", "distinct_count", "null_count", "minlen", "maxlen", "min", "max", "sum"]}[profile]
+        accs = rng.sample(sorted(set(pool)), rng.randint(1, min(5, len(set(pool)))))
+        if profile in ("midints", "wideints") and not set(accs) & {"var", "stddev", "meaneb"}:
+            accs.append(rng.choice(["var", "stddev", "meaneb"]))
         interp = False
         if kind == "stats1p":
             profile = rng.choice(["small", "ints"])
@@ -812,6 +826,10 @@ def gen_case(rng, tier):
             accs = accs2
             rng.shuffle(accs)
         fs = rng.sample(VKEYS, rng.randint(1, 3))
+        if rng.random() < 0.1:                      # names given twice: kept once (fix: 354e61d24)
+            accs = accs + [rng.choice(accs)]
+        if rng.random() < 0.1:
+            fs = fs + [rng.choice(fs)]
         s = {"verb": "stats1", "accs": accs, "fs": fs, "gs": gs, "interp": interp, "profile": profile}
         if kind == "stats1w":
             s["w"] = rng.choice([1, 2, 3, 5])
@@ -830,13 +848,18 @@ def gen_case(rng, tier):
             if rng.random() < 0.4:
                 s["suffixes"] = ["s%d" % i for i in range(len(s["alphas"]))]
         s["steppers"] = st
-        if "from-first" in st or "ewma" in st:
+        if "ewma" in st:
+            s["profile"] = "pos"           # float recurrences: values exactly representable with small magnitude (the tie domain of binary64)
+        elif "from-first" in st:
             s["profile"] = "nums"
     elif kind == "merge-fields":
         mode = rng.choice(["f", "r", "c"])
-        prof = rng.choice(["small", "small", "ints", "text"])
-        pool = {"small": PLAIN + MOMENT, "ints": PLAIN, "text": ["count", "mode", "antimode", "distinct_count", "null_count", "minlen", "maxlen", "min", "max", "sum"]}[prof]
+        prof = rng.choice(["small", "small", "small", "ints", "text", "text", "midints", "wideints"])
+        pool = {"small": PLAIN + MOMENT, "ints": PLAIN, "midints": ["var", "stddev", "meaneb", "mean", "sum", "count"], "wideints": ["var", "stddev", "meaneb", "mean", "sum", "count"],
+                "text": ["count", "mode", "antimode", "distinct_count", "null_count", "minlen", "maxlen", "min", "max", "sum"]}[prof]
         accs = rng.sample(pool, rng.randint(1, 4))
+        if prof in ("midints", "wideints") and not set(accs) & {"var", "stddev", "meaneb"}:
+            accs.append(rng.choice(["var", "stddev", "meaneb"]))
         if rng.random() < 0.25 and prof != "text":
             accs = list(dict.fromkeys(accs + [rng.choice(["median", "p25", "p90"])]))
         s = {"verb": "merge-fields", "mode": mode, "accs": accs, "k": rng.random() < 0.4, "interp": False, "o": rng.choice(["out", "ab", "x"]),
@@ -911,8 +934,8 @@ def in_group_domain(s, recs):
 # ================================================================== extension: verbs of Verbs3.v (begin)
 # uniq -a [-c|-n], fill-empty, top with the exact keeper (top -a; value texts), step -a slwin_B_F.
 # Each: generator kind, mlr_args, coq_spec (constructors added to Harness.vspec), first-principles oracle.
-EXT_VERBS = {"uniq-a", "fill-empty", "top2", "step-slwin"}
-EXT_SHARE = 0.2                      # share of the generated cases that go to these verbs
+EXT_VERBS = {"uniq-a", "fill-empty", "top2", "step-slwin", "stats1g", "stats2"}
+EXT_SHARE = 0.3                      # share of the generated cases that go to these verbs
 SLWINS = [(0, 0), (1, 0), (2, 0), (3, 0), (0, 1), (1, 1), (2, 1), (0, 2), (3, 2), (1, 3)]
 
 
@@ -926,7 +949,26 @@ def coq_spec_ext(s):
         return f"(STop2 {coq_bool(s['a'])} {s['n']}%nat {coq_bool(not s['min'])} {coq_bytes(s['out'])} {coq_names(s['fs'])} {coq_names(s['gs'])})"
     if k == "step-slwin":
         return f"(SStepSlwin {coq_list(['(%d%%nat, %d%%nat)' % (b, f) for b, f in s['wins']])} {coq_names(s['fs'])} {coq_names(s['gs'])})"
+    if k == "stats1g":
+        fk, gk = s["fsel"]["kind"], s["gsel"]["kind"]
+        fsl = f"(FNames {coq_names(s['fsel']['names'])})" if fk == "f" else f"(FRegex {coq_bool(fk == 'fx')} {coq_pats(s['fsel']['names'])})"
+        gsl = f"(GNames {coq_names(s['gsel']['names'])})" if gk == "g" else f"(GRegex {coq_bool(gk == 'gx')} {coq_pats(s['gsel']['names'])})"
+        mode = {"end": "M1End", "s": "M1Iter"}.get(s["mode"]) or f"(M1Win {s['w']}%nat)"
+        return f"(SStats1G {coq_bool(s['interp'])} {coq_list([coq_acc(a) for a in s['accs']])} {fsl} {gsl} {mode})"
+    if k == "stats2":
+        accs = coq_list([{"linreg-ols": "S2Ols", "r2": "S2R2", "cov": "S2Cov", "corr": "S2Corr"}[a] for a in s["accs"]])
+        return f"(SStats2 {coq_bool(s['s'])} {accs} {coq_names(s['fs'])} {coq_names(s['gs'])})"
     raise KeyError(k)
+
+
+def pat_parts(p):
+    """'^lit$' -> (anchored at head, anchored at tail, literal): the regex sub-language of Verbs4.pat"""
+    head, tail = p.startswith("^"), p.endswith("$")
+    return head, tail, p[1 if head else 0:len(p) - (1 if tail else 0)]
+
+
+def coq_pats(ps):
+    return coq_list(["(mkpat %s %s %s)" % (coq_bool(h), coq_bool(t), coq_bytes(l)) for h, t, l in map(pat_parts, ps)])
 
 
 def mlr_args_ext(s):
@@ -940,6 +982,13 @@ def mlr_args_ext(s):
                 + (["--min"] if s["min"] else []) + (["-a"] if s["a"] else []) + (["-F"] if s.get("F") else []) + (["-o", s["out"]] if s["out"] != "top_idx" else []))
     if k == "step-slwin":
         return ["step", "-a", ",".join("slwin_%d_%d" % (b, f) for b, f in s["wins"]), "-f", ",".join(s["fs"])] + (["-g", ",".join(s["gs"])] if s["gs"] else [])
+    if k == "stats1g":
+        a = ["stats1", "-a", ",".join(s["accs"]), {"f": "-f", "fr": "--fr", "fx": "--fx"}[s["fsel"]["kind"]], ",".join(s["fsel"]["names"])]
+        if s["gsel"]["names"]:
+            a += [{"g": "-g", "gr": "--gr", "gx": "--gx"}[s["gsel"]["kind"]], ",".join(s["gsel"]["names"])]
+        return a + (["-i"] if s["interp"] else []) + (["-s"] if s["mode"] == "s" else []) + (["-w", str(s["w"])] if s["mode"] == "w" else [])
+    if k == "stats2":
+        return ["stats2", "-a", ",".join(s["accs"]), "-f", ",".join(s["fs"])] + (["-g", ",".join(s["gs"])] if s["gs"] else []) + (["-s"] if s["s"] else [])
     raise KeyError(k)
 
 
@@ -972,6 +1021,10 @@ def oracle_ext(s, recs, rows):
         return "exp", exp
     if k == "fill-empty":
         return "exp", [[(kk, ("text", s["v"] if vv == "" else vv)) for kk, vv in r] for r in recs]
+    if k == "stats1g":
+        return "exp", oracle_stats1g(s, recs)
+    if k == "stats2":
+        return "exp", oracle_stats2(s, recs)
     if k == "step-slwin":
         lead = max(f for _, f in s["wins"])
         members, where = {}, []
@@ -1044,8 +1097,220 @@ def oracle_ext(s, recs, rows):
     raise KeyError(k)
 
 
+def oracle_stats1g(s, recs):
+    """stats1 from first principles: field selection by name or by regex (re.search), groups keyed by the tuple of the
+    group-by (name, text) pairs, each accumulator recomputed from the values of its field over the group's records
+    (end of stream), over the group's records so far (-s), over the group's last w records (-w)"""
+    accs = list(dict.fromkeys(s["accs"]))                     # a name given twice is one accumulator
+    fk, fnames = s["fsel"]["kind"], s["fsel"]["names"]
+    gk, gnames = s["gsel"]["kind"], s["gsel"]["names"]
+
+    def selected(kind, names, key):
+        hit = any(re.search(p, key) for p in names)
+        return hit != (kind in ("fx", "gx"))
+
+    def vfields(r):
+        d = dict(r)
+        return [f for f in dict.fromkeys(fnames) if f in d] if fk == "f" else [kk for kk, _ in r if selected(fk, fnames, kk)]
+
+    def gpairs(r):
+        d = dict(r)
+        if gk == "g":
+            return None if any(g not in d for g in gnames) else tuple((g, d[g]) for g in gnames)
+        return tuple((kk, vv) for kk, vv in r if selected(gk, gnames, kk))
+
+    def gident(pairs):
+        if gk == "g":
+            vals = tuple(v for _, v in pairs)
+            return ",".join(vals) if JOINED_KEYS[0] else vals
+        return pairs
+
+    out_names = list(dict.fromkeys(gnames)) if gk == "g" else []
+    order, groups = [], {}                                   # group -> {"shown": pairs, "hist": [record], "fields": [names in first-fed order]}
+    exp = []
+    for r in recs:
+        pairs = gpairs(r)
+        if pairs is None:
+            continue
+        if gk != "g":
+            for kk, _ in pairs:
+                if kk not in out_names:
+                    out_names.append(kk)
+        gid = gident(pairs)
+        if gid not in groups:
+            groups[gid] = {"shown": pairs, "hist": [], "fields": []}
+            order.append(gid)
+        g = groups[gid]
+        g["hist"].append(r)
+        for f in vfields(r):
+            if f not in g["fields"]:
+                g["fields"].append(f)
+        if s["mode"] in ("s", "w"):
+            e = [(kk, ("text", vv)) for kk, vv in r]
+            shown = dict(g["shown"] if gk == "g" else pairs)
+            members = g["hist"] if s["mode"] == "s" else g["hist"][-s["w"]:]
+            add = [(n, ("text", shown[n])) for n in out_names if n in shown]
+            for f in g["fields"]:
+                vals = [dict(m)[f] for m in members if f in vfields(m)]
+                add += [(f + "_" + a, expect_acc(a, vals, s["interp"])) for a in accs]
+            for name, val in add:
+                idx = [i for i, (kk, _) in enumerate(e) if kk == name]
+                if idx:
+                    e[idx[0]] = (name, val)
+                else:
+                    e.append((name, val))
+            exp.append(e)
+    if s["mode"] == "end":
+        for gid in order:
+            g = groups[gid]
+            shown = dict(g["shown"])
+            e = [(n, ("text", shown[n])) for n in out_names if n in shown]
+            for f in g["fields"]:
+                vals = [dict(m)[f] for m in g["hist"] if f in vfields(m)]
+                e += [(f + "_" + a, expect_acc(a, vals, s["interp"])) for a in accs]
+            exp.append(e)
+    return exp
+
+
+def expect_bivar(a, f1, f2, xys):
+    """the fields accumulator `a` writes for the pair (f1, f2), from the textbook definitions over the (x, y) pairs:
+    centred sums cxy = sum (x-mx)(y-my), cxx, cyy; cov = cxy/(n-1); OLS m = cxy/cxx, b = my - m mx; r2 = cxy^2/(cxx cyy);
+    corr = cov / sqrt(var_x var_y)"""
+    n = len(xys)
+    pre = f1 + "_" + f2 + "_"
+    if n >= 1:
+        mx, my = sum(x for x, _ in xys) / n, sum(y for _, y in xys) / n
+        cxy = sum((x - mx) * (y - my) for x, y in xys)
+        cxx = sum((x - mx) ** 2 for x, _ in xys)
+        cyy = sum((y - my) ** 2 for _, y in xys)
+    few = n < 2
+    if a == "linreg-ols":
+        if few:
+            return [(pre + "ols_m", ("void",)), (pre + "ols_b", ("void",)), (pre + "ols_n", ("int", n))]
+        if cxx == 0:
+            return [(pre + "ols_m", ("nan",)), (pre + "ols_b", ("nan",)), (pre + "ols_n", ("int", n))]
+        m = cxy / cxx
+        return [(pre + "ols_m", ("flt", m)), (pre + "ols_b", ("flt", my - m * mx)), (pre + "ols_n", ("int", n))]
+    if a == "r2":
+        return [(pre + "r2", ("void",) if few else ("nan",) if cxx * cyy == 0 else ("flt", cxy * cxy / (cxx * cyy)))]
+    if a == "cov":
+        return [(pre + "cov", ("void",) if few else ("flt", cxy / (n - 1)))]
+    if a == "corr":
+        if few:
+            return [(pre + "corr", ("void",))]
+        vv = cxx / (n - 1) * cyy / (n - 1)
+        return [(pre + "corr", ("nan",) if vv == 0 else ("pow15", cxy / (n - 1) * vv, vv))]
+    raise KeyError(a)
+
+
+def oracle_stats2(s, recs):
+    pairs = [(s["fs"][i], s["fs"][i + 1]) for i in range(0, len(s["fs"]), 2)]
+    order, groups = [], {}
+    exp = []
+    for r in recs:
+        d = dict(r)
+        if any(g not in d for g in s["gs"]):
+            if s["s"]:                               # -s: a record lacking a group-by field passes through unchanged
+                exp.append([(kk, ("text", vv)) for kk, vv in r])
+            continue
+        key = gkey(d, s["gs"])
+        if key not in groups:
+            groups[key] = {"shown": None, "xys": {p: [] for p in pairs}}
+            order.append(key)
+        g = groups[key]
+        g["shown"] = [d[x] for x in s["gs"]]
+        e = [(kk, ("text", vv)) for kk, vv in r]
+        for p in pairs:
+            if p[0] in d and p[1] in d and d[p[0]] != "" and d[p[1]] != "":
+                g["xys"][p].append((numq(d[p[0]]), numq(d[p[1]])))
+                if s["s"]:
+                    for a in s["accs"]:
+                        for name, val in expect_bivar(a, p[0], p[1], g["xys"][p]):
+                            idx = [i for i, (kk, _) in enumerate(e) if kk == name]
+                            if idx:
+                                e[idx[0]] = (name, val)
+                            else:
+                                e.append((name, val))
+        if s["s"]:
+            exp.append(e)
+    if not s["s"]:
+        for key in order:
+            g = groups[key]
+            e = [(f, ("text", v)) for f, v in zip(s["gs"], g["shown"])]
+            for p in pairs:
+                if g["xys"][p]:
+                    for a in s["accs"]:
+                        e += expect_bivar(a, p[0], p[1], g["xys"][p])
+            exp.append(e)
+    return exp
+
+
+def gen_stats2(rng, tier, nrec, gvals, gs):
+    fs = rng.choice([["x", "y"], ["y", "x"], ["x", "y", "y", "z"], ["x", "z", "x", "y"], ["z", "x"]])
+    s = {"verb": "stats2", "accs": rng.sample(["linreg-ols", "r2", "cov", "corr"], rng.randint(1, 4)), "fs": fs, "gs": gs, "s": rng.random() < 0.35,
+         "profile": "stepnums"}
+    recs = gen_records(rng, "stepnums", nrec, gvals)
+    if rng.random() < 0.15:             # degenerate groups: all x equal (no OLS fit, r2 and corr undefined)
+        recs = [[(kk, "2.5" if kk == "x" and vv != "" else vv) for kk, vv in r] for r in recs]
+    return s, recs
+
+
+S1G_GK = ["a", "b", "ab", "g1"]
+S1G_VK = ["x", "y", "z", "xy", "x_in", "y2"]
+
+
+def gen_stats1g(rng, tier, nrec, gvals):
+    """stats1 with every field-selection form on records with heterogeneous field names"""
+    profile = rng.choice(["small", "small", "ints", "text"])
+    pool = {"small": PLAIN + MOMENT, "ints": PLAIN, "text": ["count", "mode", "antimode", "distinct_count", "null_count", "minlen", "maxlen", "min", "max"]}[profile]
+    accs = rng.sample(pool, rng.randint(1, min(4, len(pool))))
+    interp = False
+    if rng.random() < 0.25 and profile != "text":
+        accs = list(dict.fromkeys(accs + rng.sample(["median", "p25", "p75", "p10", "p90"], rng.randint(1, 2))))
+        interp = rng.random() < 0.4
+    if rng.random() < 0.15:
+        accs = accs + [rng.choice(accs)]                      # a name given twice: one accumulator, every value ingested once
+    fk = rng.choice(["f", "fr", "fr", "fx"])
+    if fk == "f":
+        fnames = rng.sample(S1G_VK, rng.randint(1, 3))
+        if rng.random() < 0.2:
+            fnames = fnames + [rng.choice(fnames)]
+    elif fk == "fr":
+        fnames = rng.sample(["^x", "x", "y$", "^y$", "_in", "z", "2$", "^xy$", "q"], rng.randint(1, 2))
+    else:
+        fnames = rng.sample(["a", "b", "g", "^x$", "y"], rng.randint(2, 4))
+        fnames = list(dict.fromkeys(fnames + ["a", "b", "g"])) if profile != "text" else fnames      # numeric profiles: keep the (text) group-by fields out
+    gk = rng.choice(["g", "gr", "gr", "gx", "none"])
+    if gk == "none":
+        gk, gnames = "g", []
+    elif gk == "g":
+        gnames = rng.sample(S1G_GK, rng.randint(1, 2))
+    elif gk == "gr":
+        gnames = rng.sample(["^a$", "^a", "b$", "a", "b", "^g", "^ab$", "q", "1$"], rng.randint(1, 2))
+    else:
+        gnames = list(dict.fromkeys(rng.sample(["^a$", "b", "g"], rng.randint(0, 2)) + ["x", "y", "z"]))
+    mode = rng.choice(["end", "end", "s", "s", "w"])
+    s = {"verb": "stats1g", "accs": accs, "fsel": {"kind": fk, "names": fnames}, "gsel": {"kind": gk, "names": gnames}, "mode": mode,
+         "interp": interp, "profile": "het:" + profile}
+    if mode == "w":
+        s["w"] = rng.choice([1, 2, 3, 5])
+    recs = []
+    for _ in range(nrec):
+        r = [(g, rng.choice(gvals)) for g in S1G_GK if rng.random() < (0.7 if g == "a" else 0.45)]
+        r += [(v, gen_value(rng, profile)) for v in S1G_VK if rng.random() < 0.55]
+        if rng.random() < 0.5:
+            rng.shuffle(r)
+        recs.append(r or [("k", "1")])
+    return s, recs
+
+
 def gen_case_ext(rng, tier, nrec, gvals, gs):
-    kind = rng.choice(["uniq-a", "uniq-a", "fill-empty", "top2", "top2", "top2", "step-slwin", "step-slwin", "step-slwin", "frequent-many"])
+    kind = rng.choice(["uniq-a", "uniq-a", "fill-empty", "top2", "top2", "top2", "step-slwin", "step-slwin", "step-slwin", "frequent-many",
+                       "stats1g", "stats1g", "stats1g", "stats1g", "stats1g", "stats2", "stats2", "stats2"])
+    if kind == "stats1g":
+        return gen_stats1g(rng, tier, nrec, gvals)
+    if kind == "stats2":
+        return gen_stats2(rng, tier, nrec, gvals, gs)
     if kind == "frequent-many":
         # most/least-frequent over 13..30 groups (beyond the 12-element insertion sort of sort.Slice): first-principles oracle only
         ngroups = rng.randint(13, 30)
@@ -1061,6 +1326,14 @@ def gen_case_ext(rng, tier, nrec, gvals, gs):
         # few distinct records, repeated; the same fields in another order is another record
         base = gen_records(rng, "text", rng.choice([1, 2, 3, 4]), gvals)
         base += [list(reversed(r)) for r in base[:1]]
+        # separator-bearing values: a twin of a record whose first value swallows the next field as text (name, separators and all, for
+        # the usual separators , = and the ones this harness reads with ; :): equal as a joined line, different as a record
+        for r in list(base):
+            if len(r) >= 2 and rng.random() < 0.6:
+                ps, fs_ = rng.choice([("=", ","), ("=", ","), (":", ";"), ("=", ";"), (" ", ",")])
+                (k1, v1), (k2, v2) = r[0], r[1]
+                if ";" not in fs_ and ":" not in ps:               # the twin must itself be readable with --ifs ';' --ips ':'
+                    base.append([(k1, v1 + fs_ + k2 + ps + v2)] + r[2:])
         recs = [list(rng.choice(base)) for _ in range(nrec)]
         mode = rng.choice(["plain", "c", "c", "n"])
         return {"verb": "uniq-a", "mode": mode, "out": rng.choice(["count", "count", "n", "a", "x"]) if mode != "plain" else "count", "profile": "text"}, recs
@@ -1124,12 +1397,20 @@ def dsl_cases(ctx, n):
         if rng.random() < 0.15:
             xs = [x for x in xs if classify(x)[0] == "int"] or ["7"]
         f = rng.choice(DSL_ACC + ["median", "percentile", "percentile", "percentiles", "percentiles_map", "sort_collection"])
+        if rng.random() < 0.12:          # ints large next to their spread / widely spread: the exact-variance path of the finalizer
+            prof = rng.choice(["midints", "wideints"])
+            xs = [x for x in (gen_value(rng, prof) for _ in range(rng.choice([2, 3, 4, 5, 6, 20]))) if x != ""] or ["100000000", "100000003"]
+            f = rng.choice(["var", "stddev", "meaneb", "mean", "sum"])
         il = rng.random() < 0.4
         half = rng.randint(0, 200)
         if f in ("percentile", "percentiles") and rng.random() < 0.2:
             half = rng.choice([-10, -1, 201, 300, 1000])       # outside 0..100: both forms clamp to the extreme elements
         if f == "percentiles_map":
             half -= half % 2                                    # map key is string(p): keep p integral
+        # numerically equal elements written differently (9 and 9.0): which of them an order statistic returns depends on the sorting
+        # algorithm (sort.Slice is not stable) and is not a value: keep one spelling per numeric value
+        spelling = {}
+        xs = [x for x in xs if spelling.setdefault(numq(x), x) == x]
         cases.append({"f": f, "xs": xs, "p": Fraction(half, 2), "il": il})
     return cases
 
@@ -1258,7 +1539,7 @@ def oracle_expect_pctl(s):
 def probe_known(ctx):
     """witnesses of the defects this check has found on the unchanged tree (classes listed in c10.findings.md); each is re-probed on every run"""
     # 1. interpolated percentile outside 0..100 indexes past the end of the array
-    st, out, err = mlr_run(ctx, ["-n", "put", 'end{print percentiles([1,2,3,4,5],[200],{"interpolate_linearly":true})}'], b"", timeout=30)
+    st, out, err = mlr_run(ctx, ["-n", "put", 'end{print percentiles([1,2,3,4,5],[200],{"interpolate_linearly":true})}'], b"", timeout=300)
     cls = classify_run(st, err)
     ctx.count(("probe", "pctl200"))
     ctx.cov.setdefault("probes", {})["interpolated_percentile_p200"] = cls
@@ -1287,41 +1568,99 @@ def probe_known(ctx):
         if d is not None:
             ctx.violation({"class": "group-key-comma-collision", "args": mlr_args(s), "input": dkvp(recs, ";", ":").decode(), "observed": rows if cls == "ok" else err,
                            "difference": d, "spec": s, "expected": "two groups (x,y | z) and (x | y,z): groups are formed by the exact texts of the group-by fields; theorem C10_group_key_exact_text_refuted"})
-    # 5. step -a shift_lead_n, n >= 2: a group with fewer than n records never reaches the window centre while draining
-    recs = [[("x", "1")]]
-    s5 = {"verb": "step", "steppers": ["shift_lead_2"], "fs": ["x"], "gs": []}
-    cls, rows, err = run_mlr(ctx, mlr_args(s5), recs)
-    ctx.count(("probe", "shift-lead-short-group"))
-    d = oracle(s5, recs, rows) if cls == "ok" else {"what": cls}
-    ctx.cov["probes"]["step shift_lead_2 on one record"] = "ok" if d is None else str(d)[:100]
-    if d is not None:
-        ctx.violation({"class": "step-shift-lead-short-group-drops-records", "args": mlr_args(s5), "input": dkvp(recs, ";", ":").decode(),
-                       "observed": rows if cls == "ok" else err, "difference": d, "spec": s5, "expected": "x=1,x_shift_lead_2= (every record is emitted exactly once)"})
-    # 2. an accumulator (or value field) named twice is fed every value twice
+    # 5. step -a shift_lead_n / slwin_B_F, n, F >= 2: a group with fewer records than the look-ahead (regression of fix: b0d126048)
+    for s5, recs in (({"verb": "step", "steppers": ["shift_lead_2"], "fs": ["x"], "gs": []}, [[("x", "1")]]),
+                     ({"verb": "step", "steppers": ["shift_lead_3", "counter"], "fs": ["x"], "gs": ["g"]},
+                      [[("g", "a"), ("x", "1")], [("g", "b"), ("x", "5")], [("g", "a"), ("x", "2")]]),
+                     ({"verb": "step-slwin", "wins": [(1, 2)], "fs": ["x"], "gs": ["g"]},
+                      [[("g", "a"), ("x", "1")], [("g", "b"), ("x", "5")], [("g", "a"), ("x", "2")]])):
+        cls, rows, err = run_mlr(ctx, mlr_args(s5), recs)
+        ctx.count(("probe", "short-group", str(mlr_args(s5))))
+        d = oracle(s5, recs, rows) if cls == "ok" else {"what": cls}
+        ctx.cov["probes"]["step look-ahead on a short group: " + " ".join(mlr_args(s5))] = "ok" if d is None else str(d)[:100]
+        if d is not None:
+            ctx.violation({"regression_of": "fix b0d126048 (step: the records of a group shorter than the look-ahead were never emitted)", "args": mlr_args(s5),
+                           "input": dkvp(recs, ";", ":").decode(), "observed": rows if cls == "ok" else err, "difference": d, "spec": s5,
+                           "expected": "every record is emitted exactly once, e.g. x=1,x_shift_lead_2="})
+    # 2. an accumulator (or value field) named twice is one accumulator fed once (regression of fix: 354e61d24)
     recs = [[("x", "3")], [("x", "4")]]
-    for args, fld, want in ((["stats1", "-a", "count,count", "-f", "x"], "x_count", "2"), (["stats1", "-a", "sum", "-f", "x,x"], "x_sum", "7")):
+    for args, fld, want in ((["stats1", "-a", "count,count", "-f", "x"], "x_count", "2"), (["stats1", "-a", "sum", "-f", "x,x"], "x_sum", "7"),
+                            (["stats1", "-a", "sum,count,sum", "-f", "x,x", "-s"], "x_sum", "3")):
         cls, rows, err = run_mlr(ctx, args, recs)
         ctx.count(("probe", tuple(args)))
         got = dict(rows[0]).get(fld) if cls == "ok" and rows else None
         ctx.cov["probes"][" ".join(args)] = got
         if got != want:
-            ctx.violation({"class": "stats1-duplicate-name-double-ingest", "args": args, "input": dkvp(recs, ";", ":").decode(), "observed": rows if cls == "ok" else err,
-                           "expected": f"{fld}={want}"})
+            ctx.violation({"regression_of": "fix 354e61d24 (stats1: a name given twice in -a or -f fed every value twice)", "args": args, "input": dkvp(recs, ";", ":").decode(),
+                           "observed": rows if cls == "ok" else err, "expected": f"{fld}={want}"})
+    # 6. stats1 --gr/--gx: the matched group-by field NAMES are part of the group (regression of fix: 06ddd9e93)
+    recs = [[("a", "1"), ("x", "3")], [("b", "1"), ("x", "4")], [("a", "1"), ("x", "5")]]
+    for s6 in ({"verb": "stats1g", "accs": ["sum", "count"], "fsel": {"kind": "f", "names": ["x"]}, "gsel": {"kind": "gr", "names": ["^a$", "^b$"]}, "mode": "end", "w": 1, "interp": False},
+               {"verb": "stats1g", "accs": ["sum"], "fsel": {"kind": "fr", "names": ["^x"]}, "gsel": {"kind": "gx", "names": ["x"]}, "mode": "s", "w": 1, "interp": False}):
+        cls, rows, err = run_mlr(ctx, mlr_args(s6), recs)
+        ctx.count(("probe", "gr-names", str(mlr_args(s6))))
+        d = oracle(s6, recs, rows) if cls == "ok" else {"what": cls}
+        ctx.cov["probes"]["stats1 regex group-by, same value under different names: " + " ".join(mlr_args(s6))] = "ok" if d is None else str(d)[:100]
+        if d is not None:
+            ctx.violation({"regression_of": "fix 06ddd9e93 (stats1 --gr/--gx: a=1 and b=1 were one group, the grouping key held the values only)", "args": mlr_args(s6),
+                           "input": dkvp(recs, ";", ":").decode(), "observed": rows if cls == "ok" else err, "difference": d, "spec": s6,
+                           "expected": "a=1,x_sum=8,x_count=2 / b=1,x_sum=4,x_count=1"})
+    # 7. step slwin with a look-back window emits copies (regression of fix: 319ac5667): the --jvquoteall writer rewrote the values
+    #    of records the window still read; timing-dependent, so the 3-record input is run repeatedly
+    recs = [[("x", "1")], [("x", "2")], [("x", "3")]]
+    s7 = {"verb": "step-slwin", "wins": [(2, 0)], "fs": ["x"], "gs": []}
+    racy = None
+    for _ in range(12 if ctx.tier == "quick" else 60):
+        cls, rows, err = run_mlr(ctx, mlr_args(s7), recs)
+        d = oracle(s7, recs, rows) if cls == "ok" else {"what": cls}
+        if d is not None:
+            racy = (rows if cls == "ok" else err, d)
+            break
+    ctx.count(("probe", "slwin-race"))
+    ctx.cov["probes"]["step slwin_2_0 with --jvquoteall, repeated"] = "ok" if racy is None else str(racy[1])[:100]
+    if racy is not None:
+        ctx.violation({"regression_of": "fix 319ac5667 (step slwin kept already-emitted records in its look-back window while the writer rewrote them)", "args": mlr_args(s7),
+                       "input": dkvp(recs, ";", ":").decode(), "observed": racy[0], "difference": racy[1], "spec": s7, "expected": "x_2_0 = 1, 1.5, 2"})
+
+
+def probe_variance(ctx):
+    """var/stddev/meaneb of ints large next to their spread"""
+    # 8. exact integer sums (regression of fix: 2ce1d3b8f): stats1, merge-fields and the DSL functions share the finalizer
+    recs = [[("x", "1700000001")], [("x", "1700000004")], [("x", "1700000002")]]
+    s8 = {"verb": "stats1", "accs": ["var", "stddev", "meaneb", "mean"], "fs": ["x"], "gs": [], "interp": False}
+    m8 = {"verb": "merge-fields", "mode": "f", "accs": ["var", "meaneb"], "k": False, "interp": False, "o": "out", "names": ["a", "b", "c"]}
+    for sp, rr in ((s8, recs), (m8, [[("a", "1700000001"), ("b", "1700000004"), ("c", "1700000002")]])):
+        cls, rows, err = run_mlr(ctx, mlr_args(sp), rr)
+        ctx.count(("probe", "var-exact-int-sums", sp["verb"]))
+        d = oracle(sp, rr, rows) if cls == "ok" else {"what": cls}
+        ctx.cov["probes"]["var of three timestamp-scale ints: " + sp["verb"]] = "ok" if d is None else str(d)[:100]
+        if d is not None:
+            ctx.violation({"regression_of": "fix 2ce1d3b8f (var/stddev/meaneb of ints: cancellation in the float formula although the integer sums are exact)", "args": mlr_args(sp),
+                           "input": dkvp(rr, ";", ":").decode(), "observed": rows if cls == "ok" else err, "difference": d, "spec": sp, "expected": "var = 7/3 = 2.3333333333333335"})
+    st, out, err = mlr_run(ctx, ["-n", "put", "end{print variance([1700000001,1700000004,1700000002]); print stddev({\"a\":100000001,\"b\":100000004,\"c\":100000002,\"d\":100000007})}"], b"", timeout=300)
+    got = out.decode("utf-8", "replace").split()
+    ctx.count(("probe", "var-exact-int-sums", "dsl"))
+    ok8 = classify_run(st, err) == "ok" and len(got) == 2 and matches(("flt", Fraction(7, 3)), got[0]) and matches(("sqrt", Fraction(7)), got[1])
+    ctx.cov["probes"]["DSL variance/stddev of ints large next to their spread"] = got
+    if not ok8:
+        ctx.violation({"regression_of": "fix 2ce1d3b8f (DSL variance/stddev of ints)", "input": "variance([1700000001,1700000004,1700000002]); stddev({a:100000001,b:100000004,c:100000002,d:100000007})",
+                       "observed": got or err.decode("utf-8", "replace")[:300], "expected": "2.3333333333333335 and 2.6457513110645907"})
+    # 9. finding variance-cancellation-float-sums: the sum of squares leaves int64, the float sums cancel
+    recs = [[("x", "1700000001")], [("x", "1700000004")], [("x", "1700000002")], [("x", "1700000007")]]
+    s9 = {"verb": "stats1", "accs": ["var"], "fs": ["x"], "gs": [], "interp": False}
+    cls, rows, err = run_mlr(ctx, mlr_args(s9), recs)
+    ctx.count(("probe", "var-float-sums"))
+    d = oracle(s9, recs, rows) if cls == "ok" else {"what": cls}
+    ctx.cov["probes"]["var of four timestamp-scale ints (float sums)"] = "ok" if d is None else str(d)[:100]
+    if d is not None:
+        ctx.violation({"class": "variance-cancellation-float-sums", "args": mlr_args(s9), "input": dkvp(recs, ";", ":").decode(), "observed": rows if cls == "ok" else err,
+                       "difference": d, "spec": s9, "expected": "x_var=7 (sum (x-mean)^2/(n-1) = 21/3)"})
 
 
 # ------------------------------------------------------------------ witness classes of genuine defects
 def classify_witness(s, recs, diff, rows=None):
     """group-key-comma-collision only when the comma-joined key explains the WHOLE difference"""
-    gs = s.get("gs") or []
-    if s["verb"] == "step-slwin" and isinstance(diff, dict) and diff.get("what") == "record count" and rows is not None:   # ---- extension block
-        lead = max(w[1] for w in s["wins"])          # same window keeper, same drain: forward >= 2 and a group shorter than that
-        if lead > 1 and any(len(m) < lead for _, m in groups_of(recs, gs)) and len(rows) < len(recs):
-            return "step-shift-lead-short-group-drops-records"
-    if s["verb"] == "step" and isinstance(diff, dict) and diff.get("what") == "record count" and rows is not None:
-        lead = max([stepper_parts(a)[1] for a in s["steppers"] if stepper_parts(a)[0] == "shift_lead"] + [0])
-        sizes = [len(m) for _, m in groups_of(recs, gs)]
-        if lead > 1 and any(n < lead for n in sizes) and len(rows) < len(recs):
-            return "step-shift-lead-short-group-drops-records"
+    gs = s.get("gs") or (s["gsel"]["names"] if s.get("gsel", {}).get("kind") == "g" else [])
     if rows is not None and s["verb"] != "dsl" and any("," in dict(r).get(g, "") for r in recs for g in gs):
         JOINED_KEYS[0] = True
         try:
@@ -1368,13 +1707,8 @@ def run(ctx):
                 cls2, rows2, err2 = run_mlr(ctx, args, recs)
                 n_cli += 1
                 if cls2 != "ok" or rows != rows2:
-                    # step slwin keeps records it has already emitted in its look-back window; with --jvquoteall (used by this
-                    # harness) the writer goroutine turns their values into strings concurrently: a timing-dependent "(error)"
-                    # (finding step-slwin-emitted-record-race, c10.findings.md 7); any other difference is a plain violation
-                    racy = cls2 == "ok" and any("slwin" in a for a in args) and any(t == "(error)" for r in rows2 for _, t in r)
                     ctx.violation({"broken": "command-line path differs from in-process verb", "args": args, "input": dkvp(recs, ";", ":").decode(),
-                                   "observed_cli": rows2 if cls2 == "ok" else err2, "observed_inprocess": rows,
-                                   **({"class": "step-slwin-emitted-record-race"} if racy else {})}, found_input=racy)
+                                   "observed_cli": rows2 if cls2 == "ok" else err2, "observed_inprocess": rows, "spec": s}, found_input=True)
                 via = "mlr"
             ctx.dist("verb:" + s["verb"] + (":w" if s.get("w") else "") + (":i" if s.get("interp") else ""))
             ctx.dist("profile:" + s.get("profile", "-"))
@@ -1405,6 +1739,7 @@ def run(ctx):
         check_dsl(ctx, terms, meta, oracle_bad)
         check_pctl_grid(ctx, terms, meta, oracle_bad)
         probe_known(ctx)
+        probe_variance(ctx)
         from checks.c10_dsl import check_dsl_ext      # DSL statistics functions on strings/maps/empties/options (coq/C10/ModelDsl.v)
         check_dsl_ext(ctx)
     ctx.cov["oracle"] = {"cases": len(meta), "disagreements": len(oracle_bad)}
@@ -1417,32 +1752,40 @@ def run(ctx):
             ctx.violation({"broken": why}, found_input=False)
         return
     with ctx.timed("coq_cases"):
-        bad, err = coq_eval_mismatches(ctx, "C10", "C10.Model C10.Verbs C10.Verbs2 C10.Verbs3 C10.Harness", "vspec * list record * list obsrec", "chk", terms, shard=len(terms) // 2 + 1)   # at most two coqc processes at a time
+        bad, err = coq_eval_mismatches(ctx, "C10", "C10.Model C10.Verbs C10.Verbs2 C10.Verbs3 C10.Verbs4 C10.Verbs5 C10.Harness", "vspec * list record * list obsrec", "chk", terms, shard=len(terms) // 2 + 1)   # at most two coqc processes at a time
     ctx.cov["correspondence"] = {"cases": len(terms), "mismatches": len(bad)}
     if err:
         ctx.violation({"broken": "correspondence-evaluation", "detail": err[-2000:]}, found_input=False)
         return
     reported = 0
-    for i in bad[:40]:
+    reported_verbs = set()                     # one report per verb, at most six: a defect of one verb must not hide another verb's
+    for i in bad[:200]:
         s, recs, rows = meta[i]
+        if s["verb"] in reported_verbs:
+            continue
+        reported_verbs.add(s["verb"])
         if s["verb"] == "pctl-grid" and len(s["ps"]) > 1:      # shrink to the first percentile the oracle rejects
             badj = [j for j, (e, (_, t)) in enumerate(zip(oracle_expect_pctl(s), rows[0])) if not matches(e, t)]
             if badj:
                 s, rows = dict(s, ps=[s["ps"][badj[0]]]), [[rows[0][badj[0]]]]
-        d = oracle(s, recs, rows)
+        if s["verb"] == "dsl":
+            e_, t_ = expect_acc(s["acc"], s["xs"], s["interp"]), rows[0][0][1]
+            d = None if matches(e_, t_) else {"what": "dsl function value", "expected": [str(x) for x in e_], "observed": t_}
+        else:
+            d = oracle(s, recs, rows)
         rep = {"broken": "correspondence C10.Harness.chk", "args": mlr_args(s), "input": dkvp(recs, ";", ":").decode(), "observed": rows, "spec": s}
         if d is not None:
             reported += 1 if ctx.violation(dict(rep, difference=d, **{"class": classify_witness(s, recs, d, rows)})) else 0
         else:
             reported += 1 if ctx.violation(dict(rep, note="model and implementation differ; the first-principles oracle agrees with the implementation"), found_input=False) else 0
-        if reported >= 3:
+        if reported >= 6:
             break
     seen_classes = set()
     for s, recs, rows, d in sorted(oracle_bad, key=lambda x: len(x[1])):
         cl = classify_witness(s, recs, d, rows)
-        if cl in seen_classes:
+        if (cl, s["verb"]) in seen_classes or len(seen_classes) >= 8:
             continue
-        seen_classes.add(cl)
+        seen_classes.add((cl, s["verb"]))
         ctx.violation({"broken": "first-principles oracle", "args": mlr_args(s), "input": dkvp(recs, ";", ":").decode(), "observed": rows,
                        "difference": d, "class": cl, "spec": s})
 
@@ -1450,7 +1793,7 @@ def run(ctx):
 def replay(ctx, path):
     obj = json.loads(Path(path).read_text())
     s = obj.get("spec")
-    if obj.get("class") in ("stats1-duplicate-name-double-ingest",) or obj.get("regression_of") or (s and s.get("verb") == "dsl"):
+    if obj.get("regression_of") or obj.get("class") == "variance-cancellation-float-sums" or (s and s.get("verb") == "dsl"):
         ctx.cov["probes"] = {}
         if s and s.get("verb") == "dsl":
             bad = []
@@ -1462,6 +1805,7 @@ def replay(ctx, path):
                 ctx.violation(dict(obj, replayed=True, observed=err))
             return
         probe_known(ctx)
+        probe_variance(ctx)
         return
     if not s:
         print("replay: no spec stored")
